@@ -72,11 +72,14 @@ theorem modify_enabled {i : Nat} {f : Sess → Option Sess} {t : List Sess} {e e
 
 /-! ### the per-entry invariant -/
 
-/-- What holds of every entry of the table in every reachable state. -/
+/-- What holds of every entry of the table in every reachable state (with the repaired publication). -/
 structure Good (cfg : Cfg) (now : Nat) (e : Sess) : Prop where
   refs_posts : e.timer ≠ .nil → e.refs = e.posts
   armed : ∀ d, e.timer = .armed d → e.refs = 0 ∧ d = e.idleSince + cfg.timeout
-  removed : e.removed = true → e.timer = .nil ∧ e.busy = 0 ∧ e.initBusy = 0 ∧ e.closing = true
+  removed : e.removed = true → e.inMap = false ∧ e.busy = 0 ∧ e.initBusy = 0 ∧ e.closing = true
+  unpublished : e.inMap = false → e.timer = .nil ∧ (e.removed = true ∨ e.pending.isSome = true)
+  pending : e.pending.isSome = true →
+    e.creating = true ∧ e.inMap = false ∧ e.busy = 0 ∧ e.initBusy = 0 ∧ e.posts = 1
   no_timeout : cfg.timeout = 0 → e.timer = .nil
   creating : e.creating = true → 1 ≤ e.posts
   idle : e.idleSince ≤ now
@@ -86,24 +89,44 @@ theorem Good.mono {cfg : Cfg} {now now' : Nat} {e : Sess} (h : Good cfg now e) (
   { h with idle := Nat.le_trans h.idle hn }
 
 theorem good_newSess (s : State) (u : User) (k : Kind) : Good s.cfg s.now (newSess s u k) := by
-  constructor <;> simp [newSess] <;> (try split) <;> simp_all
+  constructor <;> simp [newSess]
 
-/-- Changes that leave timer, counters and flags alone keep `Good` on an entry that is not removed. -/
+/-- Changes that leave timer, counters, publication and creation state alone keep `Good` on an entry
+that is not removed and not waiting for publication. -/
 theorem good_frame {cfg : Cfg} {now : Nat} {e e' : Sess} (h : Good cfg now e) (hr : e'.removed = false)
+    (hp : e'.pending = none) (hp0 : e.pending = none)
     (h1 : e'.timer = e.timer) (h2 : e'.refs = e.refs) (h3 : e'.posts = e.posts)
-    (h4 : e'.creating = e.creating) (h5 : e'.idleSince = e.idleSince) : Good cfg now e' := by
-  obtain ⟨g1, g2, g3, g4, g5, g6⟩ := h
+    (h4 : e'.creating = e.creating) (h5 : e'.idleSince = e.idleSince) (h6 : e'.inMap = e.inMap)
+    (h7 : e.removed = false) : Good cfg now e' := by
+  obtain ⟨g1, g2, g3, g4, g5, g6, g7, g8⟩ := h
   constructor
   · rw [h1, h2, h3]; exact g1
   · intro d hd; rw [h1] at hd; rw [h2, h5]; exact g2 d hd
   · intro hx; rw [hr] at hx; cases hx
-  · intro hx; rw [h1]; exact g4 hx
-  · intro hx; rw [h4] at hx; rw [h3]; exact g5 hx
-  · rw [h5]; exact g6
+  · intro hx; rw [h6] at hx; rw [h1]
+    have := g4 hx
+    rw [h7, hp0] at this
+    simp at this
+  · intro hx; rw [hp] at hx; cases hx
+  · intro hx; rw [h1]; exact g6 hx
+  · intro hx; rw [h4] at hx; rw [h3]; exact g7 hx
+  · rw [h5]; exact g8
 
-theorem good_startTimer {cfg : Cfg} {now : Nat} {e : Sess} (h : Good cfg now e) (hr : e.removed = false) :
+/-- An entry that is in the map is neither removed nor waiting for publication. -/
+theorem good_inMap {cfg : Cfg} {now : Nat} {e : Sess} (h : Good cfg now e) (hm : e.inMap = true) :
+    e.removed = false ∧ e.pending = none := by
+  refine ⟨?_, ?_⟩
+  · cases hr : e.removed with
+    | false => rfl
+    | true => have := (h.removed hr).1; rw [hm] at this; cases this
+  · cases hp : e.pending with
+    | none => rfl
+    | some k => have := (h.pending (by simp [hp])).2.1; rw [hm] at this; cases this
+
+theorem good_startTimer {cfg : Cfg} {now : Nat} {e : Sess} (h : Good cfg now e) (hm : e.inMap = true) :
     Good cfg now (startTimer e) := by
-  obtain ⟨g1, g2, g3, g4, g5, g6⟩ := h
+  have ⟨hr, hp⟩ := good_inMap h hm
+  obtain ⟨g1, g2, g3, g4, g5, g6, g7, g8⟩ := h
   cases ht : e.timer with
   | nil =>
     simp only [startTimer, ht]
@@ -122,7 +145,7 @@ theorem deliver_fields (k : Kind) (e : Sess) :
     (deliver k e).removed = e.removed ∧ (deliver k e).timer = e.timer ∧ (deliver k e).refs = e.refs ∧
     (deliver k e).posts = e.posts ∧ (deliver k e).creating = e.creating ∧
     (deliver k e).idleSince = e.idleSince ∧ (deliver k e).id = e.id ∧ (deliver k e).owner = e.owner ∧
-    (deliver k e).closing = e.closing := by
+    (deliver k e).closing = e.closing ∧ (deliver k e).inMap = e.inMap ∧ (deliver k e).pending = e.pending := by
   unfold deliver
   split
   · simp
@@ -130,21 +153,54 @@ theorem deliver_fields (k : Kind) (e : Sess) :
 
 theorem startTimer_fields (e : Sess) :
     (startTimer e).removed = e.removed ∧ (startTimer e).id = e.id ∧ (startTimer e).owner = e.owner ∧
-    (startTimer e).closing = e.closing ∧ (startTimer e).posts = e.posts + 1 := by
+    (startTimer e).closing = e.closing ∧ (startTimer e).posts = e.posts + 1 ∧
+    (startTimer e).inMap = e.inMap ∧ (startTimer e).pending = e.pending := by
   unfold startTimer
   split <;> simp
 
+theorem good_deliver {cfg : Cfg} {now : Nat} {e : Sess} (k : Kind) (h : Good cfg now e)
+    (hm : e.inMap = true) : Good cfg now (deliver k e) := by
+  have ⟨hr, hp⟩ := good_inMap h hm
+  have hf := deliver_fields k e
+  exact good_frame h (by rw [hf.1, hr]) (by rw [hf.2.2.2.2.2.2.2.2.2.2, hp]) hp hf.2.1 hf.2.2.1 hf.2.2.2.1
+    hf.2.2.2.2.1 hf.2.2.2.2.2.1 hf.2.2.2.2.2.2.2.2.2.1 hr
+
 theorem good_startPost {cfg : Cfg} {now : Nat} {e : Sess} (k : Kind) (h : Good cfg now e)
-    (hr : e.removed = false) : Good cfg now (startPost k e) := by
-  have h1 := good_startTimer h hr
-  have hf := deliver_fields k (startTimer e)
+    (hm : e.inMap = true) : Good cfg now (startPost k e) := by
+  have h1 := good_startTimer h hm
   have hs := startTimer_fields e
   show Good cfg now (deliver k (startTimer e))
-  exact good_frame h1 (by rw [hf.1, hs.1, hr]) hf.2.1 hf.2.2.1 hf.2.2.2.1 hf.2.2.2.2.1 hf.2.2.2.2.2.1
+  exact good_deliver k h1 (by rw [hs.2.2.2.2.2.1, hm])
+
+theorem good_publish {cfg : Cfg} {now : Nat} {e e' : Sess} (h : Good cfg now e)
+    (he : publishF true cfg.timeout e = some e') : Good cfg now e' := by
+  unfold publishF at he
+  split at he
+  · cases he
+  · rename_i k hk
+    have hp := h.pending (by simp [hk])
+    have hu := h.unpublished hp.2.1
+    by_cases hr : e.removed = true
+    · simp only [hr, Bool.and_self, if_true] at he
+      cases he
+      have hrm := h.removed hr
+      obtain ⟨g1, g2, g3, g4, g5, g6, g7, g8⟩ := h
+      constructor <;> simp_all
+    · have hr : e.removed = false := by simpa using hr
+      simp only [hr, Bool.and_false] at he
+      simp at he
+      subst he
+      have base : Good cfg now (publishedSess cfg.timeout e) := by
+        obtain ⟨g1, g2, g3, g4, g5, g6, g7, g8⟩ := h
+        unfold publishedSess
+        by_cases hz : cfg.timeout = 0
+        · constructor <;> simp_all
+        · constructor <;> simp_all
+      exact good_deliver k base (by simp [publishedSess])
 
 theorem good_endPost {cfg : Cfg} {now : Nat} {e e' : Sess} (creator : Bool) (h : Good cfg now e)
     (he : endPost now cfg.timeout creator e = some e') : Good cfg now e' := by
-  obtain ⟨g1, g2, g3, g4, g5, g6⟩ := h
+  obtain ⟨g1, g2, g3, g4, g5, g6, g7, g8⟩ := h
   unfold endPost at he
   split at he
   · cases he
@@ -158,7 +214,7 @@ theorem good_endPost {cfg : Cfg} {now : Nat} {e e' : Sess} (creator : Bool) (h :
     simp only [ht] at he
     cases creator
     · simp at he; subst he
-      constructor <;> simp_all <;> (first | omega | (intro hcr; have := g5 hcr; have := hc2 hcr; omega) | (cases hcr : e.creating <;> simp_all <;> omega))
+      constructor <;> simp_all <;> (first | omega | (intro hcr; have := g7 hcr; have := hc2 hcr; omega) | (cases hcr : e.creating <;> simp_all <;> omega))
     · simp at he; subst he
       constructor <;> simp_all
   | stopped =>
@@ -168,13 +224,13 @@ theorem good_endPost {cfg : Cfg} {now : Nat} {e e' : Sess} (creator : Bool) (h :
     · simp only [hz] at he
       cases creator
       · simp at he; subst he
-        constructor <;> simp_all <;> (first | omega | (intro hcr; have := g5 hcr; have := hc2 hcr; omega) | (cases hcr : e.creating <;> simp_all <;> omega))
+        constructor <;> simp_all <;> (first | omega | (intro hcr; have := g7 hcr; have := hc2 hcr; omega) | (cases hcr : e.creating <;> simp_all <;> omega))
       · simp at he; subst he
-        constructor <;> simp_all <;> (first | omega | (intro hcr; have := g5 hcr; have := hc2 hcr; omega) | (cases hcr : e.creating <;> simp_all <;> omega))
+        constructor <;> simp_all <;> (first | omega | (intro hcr; have := g7 hcr; have := hc2 hcr; omega) | (cases hcr : e.creating <;> simp_all <;> omega))
     · simp only [hz] at he
       cases creator
       · simp at he; subst he
-        constructor <;> simp_all <;> (first | omega | (intro hcr; have := g5 hcr; have := hc2 hcr; omega) | (cases hcr : e.creating <;> simp_all <;> omega))
+        constructor <;> simp_all <;> (first | omega | (intro hcr; have := g7 hcr; have := hc2 hcr; omega) | (cases hcr : e.creating <;> simp_all <;> omega))
       · simp at he; subst he
         constructor <;> simp_all
   | armed d =>
@@ -184,21 +240,35 @@ theorem good_endPost {cfg : Cfg} {now : Nat} {e e' : Sess} (creator : Bool) (h :
 
 theorem good_handlerDone {cfg : Cfg} {now : Nat} {e e' : Sess} (b : Bool) (h : Good cfg now e)
     (he : handlerDoneF b e = some e') : Good cfg now e' := by
+  have hpn : e.busy ≠ 0 ∨ e.initBusy ≠ 0 → e.pending = none := by
+    intro hb
+    cases hp : e.pending with
+    | none => rfl
+    | some k =>
+      have := h.pending (by simp [hp])
+      omega
   unfold handlerDoneF at he
   split at he
   · cases he
   rename_i hr
+  have hr : e.removed = false := by simpa using hr
   split at he
   · split at he
     · cases he
-    · cases he; exact good_frame h (by simpa using hr) rfl rfl rfl rfl rfl
+    · rename_i hb
+      cases he
+      have hp := hpn (Or.inr hb)
+      exact good_frame h hr hp hp rfl rfl rfl rfl rfl rfl hr
   · split at he
     · cases he
-    · cases he; exact good_frame h (by simpa using hr) rfl rfl rfl rfl rfl
+    · rename_i hb
+      cases he
+      have hp := hpn (Or.inl hb)
+      exact good_frame h hr hp hp rfl rfl rfl rfl rfl rfl hr
 
 theorem good_timerFire {cfg : Cfg} {now : Nat} {e e' : Sess} (h : Good cfg now e)
     (he : timerFireF now e = some e') : Good cfg now e' := by
-  obtain ⟨g1, g2, g3, g4, g5, g6⟩ := h
+  obtain ⟨g1, g2, g3, g4, g5, g6, g7, g8⟩ := h
   unfold timerFireF at he
   split at he
   · cases he
@@ -213,15 +283,16 @@ theorem good_timerFire {cfg : Cfg} {now : Nat} {e e' : Sess} (h : Good cfg now e
 
 theorem good_close {cfg : Cfg} {now : Nat} {e e' : Sess} (h : Good cfg now e)
     (he : closeF e = some e') : Good cfg now e' := by
+  obtain ⟨g1, g2, g3, g4, g5, g6, g7, g8⟩ := h
   unfold closeF at he
   split at he
   · cases he
-  · rename_i hr
-    cases he; exact good_frame h (by simpa using hr) rfl rfl rfl rfl rfl
+  · cases he
+    constructor <;> simp_all
 
 theorem good_closeDone {cfg : Cfg} {now : Nat} {e e' : Sess} (h : Good cfg now e)
     (he : closeDoneF e = some e') : Good cfg now e' := by
-  obtain ⟨g1, g2, g3, g4, g5, g6⟩ := h
+  obtain ⟨g1, g2, g3, g4, g5, g6, g7, g8⟩ := h
   unfold closeDoneF at he
   split at he
   · cases he
@@ -236,12 +307,13 @@ inductive Move (s : State) : Sess → Sess → Prop where
   | start (e : Sess) (k : Kind) (u : User) : lookup s.tbl e.id u = .ok e → Move s e (startPost k e)
   | hdone (e e' : Sess) (b : Bool) : handlerDoneF b e = some e' → Move s e e'
   | pend (e e' : Sess) (c : Bool) : endPost s.now s.cfg.timeout c e = some e' → Move s e e'
+  | publish (e e' : Sess) : publishF s.cfg.publishChecks s.cfg.timeout e = some e' → Move s e e'
   | fire (e e' : Sess) : timerFireF s.now e = some e' → Move s e e'
   | close (e e' : Sess) : closeF e = some e' → Move s e e'
   | cdone (e e' : Sess) : closeDoneF e = some e' → Move s e e'
 
 theorem lookup_ok {t : List Sess} {i : Nat} {u : User} {e : Sess} (h : lookup t i u = .ok e) :
-    findSess i t = some e ∧ e.removed = false ∧ (e.owner = none ∨ e.owner = u) := by
+    findSess i t = some e ∧ e.inMap = true ∧ (e.owner = none ∨ e.owner = u) := by
   unfold lookup at h
   split at h
   · cases h
@@ -341,11 +413,18 @@ theorem step_cases {s s' : State} {l : Label} {r : Resp} (h : step s l = some (s
       · split at h
         · cases h; simp
         · split at h
-          · cases h
+          · cases h; simp
           · rename_i t hm
             cases h
             obtain ⟨pre, e1, post, e', h1, h2, h3, h4⟩ := mv hm (fun e e' _ he' => Move.close e e' he')
             exact ⟨rfl, Nat.le_refl _, Or.inr (Or.inr ⟨pre, e1, post, e', h1, h2, h3, h4, rfl, rfl, hst⟩)⟩
+    case publish i =>
+      split at h
+      · rename_i e t hf hm
+        cases h
+        obtain ⟨pre, e1, post, e', h1, h2, h3, h4⟩ := mv hm (fun e e' _ he' => Move.publish e e' he')
+        exact ⟨rfl, Nat.le_refl _, Or.inr (Or.inr ⟨pre, e1, post, e', h1, h2, h3, h4, rfl, rfl, hst⟩)⟩
+      · cases h
     case other => cases h; simp
     case tick d => cases h; simp
     case timerFire i =>
@@ -396,7 +475,7 @@ theorem move_fields {s : State} {e e' : Sess} (h : Move s e e') :
     · show (deliver k (startTimer e)).id = e.id; rw [hd.2.2.2.2.2.2.1, hs.2.1]
     · show (deliver k (startTimer e)).owner = e.owner; rw [hd.2.2.2.2.2.2.2.1, hs.2.2.1]
     · show e.removed = true → (deliver k (startTimer e)).removed = true; rw [hd.1, hs.1]; exact id
-    · show e.closing = true → (deliver k (startTimer e)).closing = true; rw [hd.2.2.2.2.2.2.2.2, hs.2.2.2.1]; exact id
+    · show e.closing = true → (deliver k (startTimer e)).closing = true; rw [hd.2.2.2.2.2.2.2.2.1, hs.2.2.2.1]; exact id
   | .hdone _ _ b he =>
     unfold handlerDoneF at he
     split at he
@@ -405,6 +484,20 @@ theorem move_fields {s : State} {e e' : Sess} (h : Move s e e') :
   | .pend _ _ c he =>
     have := endPost_fields he
     exact ⟨this.1, this.2.1, by rw [this.2.2.1]; exact id, this.2.2.2.1⟩
+  | .publish _ _ he =>
+    unfold publishF at he
+    split at he
+    · cases he
+    · rename_i k _
+      split at he
+      · cases he; simp
+      · cases he
+        have hd := deliver_fields k (publishedSess s.cfg.timeout e)
+        refine ⟨?_, ?_, ?_, ?_⟩
+        · rw [hd.2.2.2.2.2.2.1]; rfl
+        · rw [hd.2.2.2.2.2.2.2.1]; rfl
+        · rw [hd.1]; exact id
+        · rw [hd.2.2.2.2.2.2.2.2.1]; exact id
   | .fire _ _ he =>
     unfold timerFireF at he
     split at he
@@ -419,9 +512,10 @@ theorem move_fields {s : State} {e e' : Sess} (h : Move s e e') :
     unfold closeDoneF at he
     split at he <;> cases he; simp_all
 
-theorem move_good {s : State} {e e' : Sess} (hg : Good s.cfg s.now e) (h : Move s e e') :
-    Good s.cfg s.now e' := by
+theorem move_good {s : State} {e e' : Sess} (hfix : s.cfg.publishChecks = true)
+    (hg : Good s.cfg s.now e) (h : Move s e e') : Good s.cfg s.now e' := by
   match h with
+  | .publish _ _ he => rw [hfix] at he; exact good_publish hg he
   | .start _ k u hl => exact good_startPost k hg (lookup_ok hl).2.1
   | .hdone _ _ b he => exact good_handlerDone b hg he
   | .pend _ _ c he => exact good_endPost c hg he
@@ -432,20 +526,21 @@ theorem move_good {s : State} {e e' : Sess} (hg : Good s.cfg s.now e) (h : Move 
 /-! ### the global invariant -/
 
 structure Inv (s : State) : Prop where
+  fixed : s.cfg.publishChecks = true
   ids : s.tbl.map (·.id) = List.range s.next
   good : ∀ e ∈ s.tbl, Good s.cfg s.now e
   stateless : s.cfg.stateless = true → s.tbl = []
 
-theorem inv_init (cfg : Cfg) : Inv (init cfg) := by
-  constructor <;> simp [init]
+theorem inv_init (cfg : Cfg) (hfix : cfg.publishChecks = true) : Inv (init cfg) := by
+  constructor <;> simp [init, hfix]
 
 theorem step_inv {s s' : State} {l : Label} {r : Resp} (hi : Inv s) (h : step s l = some (s', r)) :
     Inv s' := by
   obtain ⟨hc, hn, hcase⟩ := step_cases h
   rcases hcase with ⟨ht, hx⟩ | ⟨u, k, _, hst, ht, hx, hnow⟩ | ⟨pre, e, post, e', h1, h2, h3, hm, hx, hnow, hst⟩
-  · exact ⟨by rw [ht, hx]; exact hi.ids, by rw [ht, hc]; exact fun e he => (hi.good e he).mono hn,
-      by rw [ht, hc]; exact hi.stateless⟩
-  · refine ⟨?_, ?_, ?_⟩
+  · exact ⟨by rw [hc]; exact hi.fixed, by rw [ht, hx]; exact hi.ids,
+      by rw [ht, hc]; exact fun e he => (hi.good e he).mono hn, by rw [ht, hc]; exact hi.stateless⟩
+  · refine ⟨by rw [hc]; exact hi.fixed, ?_, ?_, ?_⟩
     · rw [ht, hx, List.map_append, hi.ids, List.range_succ]; simp [newSess]
     · rw [ht, hc, hnow]
       intro e he
@@ -454,7 +549,7 @@ theorem step_inv {s s' : State} {l : Label} {r : Resp} (hi : Inv s) (h : step s 
       · simp at he; subst he; exact good_newSess s u k
     · rw [hc, hst]; intro hx; cases hx
   · have hf := move_fields hm
-    refine ⟨?_, ?_, ?_⟩
+    refine ⟨by rw [hc]; exact hi.fixed, ?_, ?_, ?_⟩
     · rw [h2, hx, ← hi.ids, h1]; simp [hf.1]
     · rw [h2, hc, hnow]
       intro x hx
@@ -462,7 +557,7 @@ theorem step_inv {s s' : State} {l : Label} {r : Resp} (hi : Inv s) (h : step s 
       rcases List.mem_append.mp hx with hx | hx
       · exact hg x (List.mem_append_left _ hx)
       · cases hx with
-        | head => exact move_good (hg e (by simp)) hm
+        | head => exact move_good hi.fixed (hg e (by simp)) hm
         | tail _ hx => exact hg x (List.mem_append_right _ (List.mem_cons_of_mem _ hx))
     · rw [hc, hst]; intro hx; cases hx
 
@@ -478,9 +573,10 @@ theorem exec_inv {s : State} (hi : Inv s) (ls : List Label) : Inv (exec s ls) :=
 /-- Reachable states: what some label list leads to from the initial state. -/
 def Reach (cfg : Cfg) (s : State) : Prop := ∃ ls, exec (init cfg) ls = s
 
-theorem reach_inv {cfg : Cfg} {s : State} (h : Reach cfg s) : Inv s := by
+/-- Reachable states satisfy the invariant — provided the publication is the repaired one (F20). -/
+theorem reach_inv {cfg : Cfg} {s : State} (h : Reach cfg s) (hfix : cfg.publishChecks = true) : Inv s := by
   obtain ⟨ls, rfl⟩ := h
-  exact exec_inv (inv_init cfg) ls
+  exact exec_inv (inv_init cfg hfix) ls
 
 theorem exec_append (s : State) (a b : List Label) : exec s (a ++ b) = exec (exec s a) b := by
   induction a generalizing s with
